@@ -17,7 +17,15 @@ def _n(x: ast.AST) -> str:
     return ast.unparse(x).replace(" ", "")
 
 
+KEEP = {"delays", "min_sample", "max_sample", "first_sample", "last_sample", "data", "relevant_chans", "sample_data",
+        "start_mjd", "new_header"}
+
+
 def translate(fn: ast.FunctionDef) -> str:
+    import normalize
+    # locals the reference translation does not know (aliases such as `nchans = self.header.nchans`, extra
+    # temporaries) are substituted first; the bridge sees through renamed locals by itself
+    fn = normalize.inline_temps(fn, keep=KEEP)
     kinds = {"start": "int", "nsamps": "int"}
     out: list[str] = []
     body = [s for s in fn.body if not (isinstance(s, ast.Expr) and isinstance(s.value, ast.Constant))]
@@ -44,16 +52,21 @@ def translate(fn: ast.FunctionDef) -> str:
                 return f"({a} {'+' if add else '-'} {b})", "int"
         if isinstance(n, ast.Compare) and len(n.ops) == 1:
             (a, ka), (b, kb) = ex(n.left), ex(n.comparators[0])
+            op = type(n.ops[0])
+            if ka == "int" and kb == "ivec":          # `t < v` is `v > t`
+                a, b, ka, kb = b, a, kb, ka
+                op = {ast.Lt: ast.Gt, ast.Gt: ast.Lt, ast.LtE: ast.GtE, ast.GtE: ast.LtE}.get(op, op)
             if ka == "ivec" and kb == "int":
-                if isinstance(n.ops[0], ast.Gt):
+                if op is ast.Gt:
                     return f"(Rdb.gtS {a} {b})", "bvec"
-                if isinstance(n.ops[0], ast.LtE):
+                if op is ast.LtE:
                     return f"(Rdb.leS {a} {b})", "bvec"
         if isinstance(n, ast.Call):
             f = _n(n.func)
             if f == "np.logical_and" and len(n.args) == 2:
                 (a, ka), (b, kb) = ex(n.args[0]), ex(n.args[1])
                 if ka == kb == "bvec":
+                    a, b = sorted((a, b))             # element-wise `and` commutes: one canonical operand order
                     return f"(Rdb.land {a} {b})", "bvec"
             if f == "int" and len(n.args) == 1 and isinstance(n.args[0], ast.Call) and not n.args[0].args \
                     and isinstance(n.args[0].func, ast.Attribute) and n.args[0].func.attr in ("min", "max"):
@@ -87,7 +100,7 @@ def translate(fn: ast.FunctionDef) -> str:
             continue
         if isinstance(st, ast.Assign) and len(st.targets) == 1 and isinstance(st.targets[0], ast.Name):
             name = st.targets[0].id
-            if src.startswith("data=np.zeros((self.header.nchans,nsamps),"):
+            if src.startswith("data=np.zeros((self.header.nchans,nsamps),dtype="):
                 zeros_seen = True
                 kinds["data"] = "block"
                 out.append("  let data : List (List Int) := Rdb.zeros nchans nsamps.toNat")
